@@ -70,7 +70,14 @@ func VxC01Sync() {
 	if snapshot {
 		info.offset = WALHeaderSize
 	}
-	res, err := db.syncReal(context.Background(), false, exec, info, 0)
+	// the per-round byte budget (MaxSyncWALBytes): off, or one frame - which stops an
+	// incremental copy at the first commit frame; a snapshot must ignore it, or it
+	// would mix the database file with a prefix of the WAL
+	var budget int64
+	if vx.Fault("budget") {
+		budget = fs
+	}
+	res, err := db.syncReal(context.Background(), false, exec, info, budget)
 	vx.Assert("sync-no-error", err == nil)
 	if err != nil {
 		return
@@ -82,6 +89,19 @@ func VxC01Sync() {
 	if snapshot {
 		scanned = g.frames
 		start = 0
+	}
+	// with the budget on, an incremental copy ends with the first commit frame:
+	// frames after it are as if they were not there yet
+	if budget > 0 && !snapshot {
+		cut := make([]vxFrame, len(scanned))
+		copy(cut, scanned)
+		before := false
+		for i := range cut {
+			cut[i].commit = vx.IteU32(before, 0, cut[i].commit)
+			cut[i].pgno = vx.IteU32(before, 0, cut[i].pgno) // page 0 is never the witness page
+			before = vx.Or(before, scanned[i].commit != 0)
+		}
+		scanned = cut
 	}
 	lastCommit := -1
 	anyCommit := false
@@ -147,5 +167,95 @@ func VxC01Sync() {
 	vx.Assert("synced-offset-is-end-of-last-commit", res.newWALSize == WALHeaderSize+int64(start)*fs+nCommitted*fs)
 	walSize := int64(len(vx.FSReadFile(path + "-wal")))
 	vx.Assert("synced-to-end-flag", res.syncedToWALEnd == (res.newWALSize == walSize))
+	vx.Assert("limited-iff-budget-stopped-the-copy", res.limited == vx.And(budget > 0 && !snapshot, anyCommit))
 	vx.ObserveBool("snapshot", snapshot)
+}
+
+// VxC01Ack: the three entry points whose success is an acknowledgement - a
+// sync-and-wait call, a `sync -wait` request (Store.SyncDB) and a clean shutdown
+// (Close). The WAL copy is the contract model vxGhostWAL, everything around it is
+// the real code: DB.Sync's chunk loop, syncLocked, checkpointIfNeeded (with the
+// E-CKPT stand-in), Store.SyncDB, DB.Close, syncReplicaWithRetry and the real
+// Replica.Sync / syncOnce / uploadLTXFile against a replica that keeps the
+// bytes. Whatever the backlog (committed WAL chunks not yet copied, local files
+// not yet uploaded) and whatever MaxSyncWALBytes, a nil result means that the
+// whole committed WAL was copied and every local level-0 file is stored.
+func VxC01Ack() {
+	dir := vx.TempDir()
+	path := dir + "/app.db"
+	vx.FSWriteFile(path, []byte("SQLite format 3\x00"))
+	vx.FSWriteFile(path+"-wal", make([]byte, WALHeaderSize))
+	vxNewSQLEnv(false)
+	defer func() { vxSQLHandler = nil }()
+	db := NewDB(path)
+	db.MonitorInterval = 0
+	db.ShutdownSyncTimeout = 0
+	c := &vxStoreClient{}
+	db.Replica = NewReplicaWithClient(db, c)
+	db.Replica.MonitorEnabled = false
+	// local level-0 files 1..n of which the replica holds 1..k
+	n := vx.Choose("local", 1, 3)
+	k := vx.Choose("remote", 0, n)
+	vx.FSMkdirAll(db.LTXLevelDir(0))
+	for t := 1; t <= n; t++ {
+		f := &vxLTX{level: 0, min: ltx.TXID(t), max: ltx.TXID(t), commit: 2, ts: int64(1000 + t), pages: []vxPg{{1, uint64(t)}}}
+		if t == 1 {
+			f.pages = []vxPg{{1, 1}, {2, 1}}
+		}
+		vx.FSWriteFile(db.LTXPath(0, f.min, f.max), vxEncodeLTX(f))
+		if t <= k {
+			c.put(f)
+		}
+	}
+	// the replica position as the running process remembers it: unknown, or the true one
+	if vx.Fault("posCached") {
+		db.Replica.SetPos(ltx.Pos{TXID: ltx.TXID(k)})
+	}
+	store := NewStore([]*DB{db}, CompactionLevels{{Level: 0}})
+	ctx := context.Background()
+	if err := db.Open(); err != nil {
+		panic(err)
+	}
+	if err := db.init(ctx); err != nil {
+		panic(err)
+	}
+	// configuration: the per-round byte budget is off or on
+	if vx.Fault("bounded") {
+		db.MaxSyncWALBytes = 1 << 20
+	} else {
+		db.MaxSyncWALBytes = 0
+	}
+	g := &vxGhostWALState{pending: vx.Choose("pending", 0, 3)}
+	vxGhostWAL = g
+	defer func() { vxGhostWAL = nil }()
+	vxCkptStub = true
+	vxCkptOutcome = func(string) int { return 2 }
+	defer func() { vxCkptStub = false }()
+	var err error
+	entry := vx.Choose("entry", 0, 2)
+	switch entry {
+	case 0:
+		err = db.SyncAndWait(ctx)
+	case 1:
+		_, err = store.SyncDB(ctx, path, true)
+	case 2:
+		err = db.Close(ctx)
+	}
+	vx.ObserveBool("ok", err == nil)
+	if err != nil {
+		return // loud
+	}
+	vx.Assert("acknowledged-means-whole-wal-copied", g.pending == 0)
+	max := ltx.TXID(0)
+	for t := ltx.TXID(1); t <= 8; t++ {
+		if vx.FSExists(db.LTXPath(0, t, t)) {
+			max = t
+		}
+	}
+	stored := true
+	for t := ltx.TXID(1); t <= max; t++ {
+		b := c.data[vxKey(0, t, t)]
+		stored = stored && b != nil && string(b) == string(vx.FSReadFile(db.LTXPath(0, t, t)))
+	}
+	vx.Assert("acknowledged-means-every-local-file-is-stored", stored && int(max) == n+g.published)
 }
